@@ -86,6 +86,22 @@ Proof.
   - destruct l; [contradiction|]. injection Hj as <-. reflexivity.
 Qed.
 
+(* an uncertainty entry -- NaN included -- is read back as it was written *)
+Lemma parse_uentry_doc : forall e, parse_uentry (uentry_doc e) = Some e.
+Proof.
+  intros e. unfold parse_uentry, uentry_doc. rewrite map_map. cbn [fst snd].
+  induction e as [|[k v] e IH]; [reflexivity|]. cbn [map fst snd]. destruct v; cbn; rewrite IH; reflexivity.
+Qed.
+
+Lemma parse_unc_doc : forall (u : list (ukey * uentry)),
+  opt_all (map (fun kv : string * json => option_map (fun e => (fst kv, e)) (parse_uentry (snd kv)))
+               (map (fun kv : ukey * uentry => (ukey_string (fst kv), uentry_doc (snd kv))) u))
+  = Some (map (fun kv => (ukey_string (fst kv), snd kv)) u).
+Proof.
+  intros u. induction u as [|[k e] u IH]; [reflexivity|]. cbn [map fst snd]. rewrite parse_uentry_doc. cbn [option_map opt_all].
+  rewrite IH. reflexivity.
+Qed.
+
 (* ---------------------------------------------------------------- from_dict (to_dict s) *)
 
 Lemma ct_from_to : forall repaired s d, wf_ct s -> ct_to_doc_objects s = Some d ->
@@ -101,7 +117,7 @@ Proof.
   cbn [field get String.eqb Ascii.eqb Bool.eqb bind as_string as_arr as_obj].
   rewrite (opt_all_map_compose seg_doc parse_seg reload_seg (ct_segments s) segs); [|
     intros g j Hin Hj; apply parse_seg_doc; [rewrite Forall_forall in Hsegs; apply Hsegs; exact Hin | exact Hj] | exact Esegs].
-  cbn [bind]. rewrite Hsi. cbn [bind fst snd].
+  cbn [bind]. rewrite Hsi. cbn [bind fst snd]. rewrite parse_unc_doc. cbn [bind].
   rewrite (warns_doc_raw _ _ Hw Ews). cbn [bind].
   rewrite (parse_metrics_doc _ _ Htm Etm). cbn [bind]. rewrite (parse_metrics_doc _ _ Ham Eam). cbn [bind].
   unfold reloaded_of. rewrite Hproc. rewrite map_map. reflexivity.
@@ -113,7 +129,7 @@ Proof. intros r s. unfold ct_inputs_of, reloaded_of. cbn. rewrite map_map. refle
 
 (* ---------------------------------------------------------------- the uncertainty map *)
 
-Definition month_keys (u : list (ukey * json)) : Prop :=
+Definition month_keys (u : list (ukey * uentry)) : Prop :=
   Forall (fun kv => match fst kv with KAll => True | KMonth n => (0 <= n < 1000)%Z | KText _ => False end) u.
 
 Lemma read_ukey_repaired : forall k,
@@ -138,7 +154,7 @@ Proof.
 Qed.
 
 (* ... and a model keyed by month numbers loses every one of them *)
-Lemma fold_none : forall (u : list (ukey * json)) m,
+Lemma fold_none : forall (u : list (ukey * uentry)) m,
   Forall (fun kv => key_applies (fst kv) m = false) u ->
   fold_left (fun acc kv => if key_applies (fst kv) m then Some (snd kv) else acc) u None = None.
 Proof.
@@ -167,7 +183,7 @@ Qed.
 Lemma relax_reload_metrics : forall m, native_metrics m -> relax_metrics (reload_metrics m) = m.
 Proof. intros [|[|x l]|l] H; cbn in *; try contradiction; reflexivity. Qed.
 
-Definition with_unc (s : ct_state) (u : list (ukey * json)) : ct_state :=
+Definition with_unc (s : ct_state) (u : list (ukey * uentry)) : ct_state :=
   {| ct_status := ct_status s; ct_method := ct_method s; ct_segments := ct_segments s; ct_pred_type := ct_pred_type s;
      ct_mapping := ct_mapping s; ct_processor := ct_processor s; ct_occupancy := ct_occupancy s;
      ct_occ_bins := ct_occ_bins s; ct_unocc_bins := ct_unocc_bins s; ct_segment_type := ct_segment_type s;
@@ -200,8 +216,8 @@ Proof.
     destruct r; [rewrite H2|]; reflexivity.
 Qed.
 
-Lemma ct_to_doc_with_unc : forall s u, map (fun kv => (ukey_string (fst kv), snd kv)) u =
-                                       map (fun kv => (ukey_string (fst kv), snd kv)) (ct_unc s) ->
+Lemma ct_to_doc_with_unc : forall s u, map (fun kv => (ukey_string (fst kv), uentry_doc (snd kv))) u =
+                                       map (fun kv => (ukey_string (fst kv), uentry_doc (snd kv))) (ct_unc s) ->
   ct_to_doc_objects (with_unc s u) = ct_to_doc_objects s.
 Proof. intros s u H. unfold ct_to_doc_objects, with_unc. cbn. rewrite H. reflexivity. Qed.
 
